@@ -120,7 +120,9 @@ def tlc(w, specdir, tla, cfg, args=(), env=None, timeout=1800, workers=None, hea
     cmd = ["java"]
     if heap:
         cmd.append("-Xmx" + heap)
-    cmd += ["-XX:+UseParallelGC", "-Xss64m", "-cp",
+    jtmp = w.path("jtmp")
+    os.makedirs(jtmp, exist_ok=True)
+    cmd += ["-XX:+UseParallelGC", "-Xss64m", "-Djava.io.tmpdir=" + jtmp, "-cp",
             "/opt/veriftools/tla/tla2tools.jar:/opt/veriftools/tla/CommunityModules-deps.jar", "tlc2.TLC",
             "-workers", str(workers or NCPU), "-metadir", meta, "-config", cfg]
     cmd += list(args) + [tla]
